@@ -351,3 +351,66 @@ def spectator_laden(rng, n):
         rng.shuffle(parts)
         out.append(("spect|%d" % i, ".".join(parts) + ">>" + b))
     return out
+
+
+def dihalogen_oxygen_loss(rng, n):
+    """products lack X.Y (+ O, O3) relative to the reactants: the only completions are elemental
+    dihalogens / interhalogens plus oxygen placeholders, which must never be accepted on the product side"""
+    X = ["F", "Cl", "Br", "I"]
+    out = []
+    for i in range(n):
+        x, y = rng.choice(X), rng.choice(X)
+        r = rng.choice(R_GROUPS)
+        k = rng.randrange(5)
+        if k == 0:
+            rx = "%sCC(O)(%s)%s>>%sC=C" % (r, x, y, r)
+        elif k == 1:
+            rx = "%sC(%s)(%s)%s.O=C%s>>%sC(%s)=C%s" % (x, x, y, y, r, x, y, r)
+        elif k == 2:
+            rx = "%sCC(O)(%s)%s.O=O>>%sC=C" % (r, x, y, r)
+        elif k == 3:
+            rx = "%sC(%s)C(%s)%s>>%sC=C%s" % (r, x, y, r, r, r)
+        else:
+            rx = "%sCC(O)(%s)%s.C%s>>%sC=C.C%s" % (r, x, y, r, r, r)
+        if all(Chem.MolFromSmiles(t) is not None for t in rx.split(">>")):
+            out.append(("x2o|%d" % i, rx))
+    return out
+
+
+def multi_additions(rng, n):
+    """a balanced reaction with 2-3 *different* rule compounds (1-2 copies each) added to one side: the
+    completion on the other side has several equally short decompositions to choose from"""
+    base = balanced_corpus()
+    # small compounds only: sums of several oxyanions send the rule matcher's DFS into minutes
+    comps = ["N#N", "O", "N", "[Na+]", "[K+]", "[Li+]", "[Cl-]", "[Br-]", "[I-]", "[F-]", "[OH-]", "[NH4+]",
+             "[H+]", "B(O)(O)O", "Cl", "Br", "O=O", "[Mg+2]", "[Ca+2]", "NO"]
+    out = []
+    for i in range(n):
+        tag, rx = rng.choice(base)
+        sp = list(oracle.split_rsmi(rx))
+        side = rng.randrange(2)
+        picked = rng.sample(comps, rng.randint(2, 3))
+        extra = []
+        for c in picked:
+            extra += [c] * rng.randint(1, 2)
+        rng.shuffle(extra)
+        parts = sp[side].split(".") + extra
+        if rng.random() < 0.5:
+            rng.shuffle(parts)
+        sp[side] = ".".join(parts)
+        out.append(("madd|%s|%s|%d" % (tag, "+".join(picked), side), ">>".join(sp)))
+    return out
+
+
+def with_spectator_copy(rng, pairs):
+    """one molecule of the reactant side written once more on both sides (excess reagent that is
+    listed among the products with the identical string)"""
+    out = []
+    for tag, rx in pairs:
+        sp = oracle.split_rsmi(rx)
+        if sp is None or not sp[0] or not sp[1]:
+            continue
+        m = rng.choice(sp[0].split("."))
+        k = rng.randint(1, 2)
+        out.append(("copy|" + tag, sp[0] + ("." + m) * k + ">>" + sp[1] + ("." + m) * k))
+    return out
